@@ -169,9 +169,19 @@ def oracle(scn, sim, h):
         # the simulator ended the run (step budget): what was recorded so far is still checked
         last = max([fr["step"] for fr in frames], default=0)
         Vf, final, t_model = recorder.check_frames(h, frames, k, scn["options"]["solve_time"], stopped_at=last, source="captured")
+        # ... and the stop rule still applies: no update may be started at a time >= solve_time
+        late = [u for u in h.stages["S"] if u["time"] >= scn["options"]["solve_time"]]
+        if late:
+            Vf.append(Violation("stop-late", f"update {late[0]['step']} was started at t={late[0]['time']!r} >= solve_time={scn['options']['solve_time']!r}: the run did not stop at the first step whose time reaches the solve time", step=late[0]["step"]))
         return [v for v in V + Vf if v["rule"] != "frame-labels"], "capped", None
     Vf, final, t_model = recorder.check_frames(h, frames, k, scn["options"]["solve_time"], source="captured")
     V += Vf
+    late = [u for u in h.stages["S"] if u["time"] >= scn["options"]["solve_time"]]
+    if late:
+        V.append(Violation("stop-late", f"update {late[0]['step']} was started at t={late[0]['time']!r} >= solve_time={scn['options']['solve_time']!r}", step=late[0]["step"]))
+    lateT = [u for u in h.stages["T"] if u["time"] >= scn["options"]["skip_time"]]
+    if lateT:
+        V.append(Violation("stop-late", f"thermalisation update {lateT[0]['step']} was started at t={lateT[0]['time']!r} >= skip_time={scn['options']['skip_time']!r}", step=lateT[0]["step"], stage="T"))
     # the file, re-opened with plain h5py, must hold what the writer was handed
     if h.out_path and os.path.exists(h.out_path):
         try:
